@@ -48,9 +48,39 @@ func (a *A) keyedByPID() {
 	const rule, key = "I1", "addUnlocked/accumulator-keyed-by-packet-pid"
 	f := a.anchor(rule, "packetPool.addUnlocked")
 	add := a.anchor(rule, "packetAccumulator.add")
-	newAcc := a.anchor(rule, "newPacketAccumulator")
-	if f == nil || add == nil || newAcc == nil {
+	if f == nil || add == nil {
 		return
+	}
+	// a constructor: a package function returning *packetAccumulator that stores one of its parameters in the pid field of the
+	// accumulator it allocates (newPacketAccumulator today; none when the literal is written out in addUnlocked)
+	pidParam := func(g *ssa.Function) int {
+		if g == nil || g.Pkg != a.P.SSAPkg || len(g.Blocks) == 0 || g.Signature.Results().Len() != 1 {
+			return -1
+		}
+		pt, ok := g.Signature.Results().At(0).Type().Underlying().(*types.Pointer)
+		if !ok || !ssau.IsNamed(pt.Elem(), load.RootPath, "packetAccumulator") {
+			return -1
+		}
+		idx := -1
+		for _, b := range g.Blocks {
+			for _, in := range b.Instrs {
+				if st, isSt := in.(*ssa.Store); isSt {
+					if _, isPid := a.fieldAddrOf(st.Addr, "packetAccumulator", "pid"); isPid {
+						found := -1
+						for i, p := range g.Params {
+							if st.Val == ssa.Value(p) {
+								found = i
+							}
+						}
+						if found < 0 || (idx >= 0 && idx != found) {
+							return -1
+						}
+						idx = found
+					}
+				}
+			}
+		}
+		return idx
 	}
 	if len(f.Params) != 2 {
 		a.R.Unknown(rule, key, a.fpos(f), "addUnlocked no longer has the shape (b *packetPool) addUnlocked(p *Packet)")
@@ -78,6 +108,7 @@ func (a *A) keyedByPID() {
 		return
 	}
 	nlook, nnew := 0, 0
+	ctors := map[*ssa.Function]bool{}
 	for _, s := range sites {
 		args := s.Common().Args
 		if len(args) != 2 || args[1] != ssa.Value(pkt) {
@@ -108,15 +139,48 @@ func (a *A) keyedByPID() {
 				}
 				continue
 			}
-			if c := callOf(l); c != nil && c.Call.StaticCallee() == newAcc {
-				nnew++
-				if !isPID(c.Call.Args[0]) {
-					bad = append(bad, "the new accumulator is constructed for "+describe(c.Call.Args[0])+", not p.Header.PID")
+			var fresh ssa.Value // the freshly built accumulator
+			var freshAt *ssa.BasicBlock
+			if c := callOf(l); c != nil {
+				if pi := pidParam(c.Call.StaticCallee()); pi >= 0 && pi < len(c.Call.Args) {
+					fresh, freshAt = c, c.Block()
+					ctors[c.Call.StaticCallee()] = true
+					if !isPID(c.Call.Args[pi]) {
+						bad = append(bad, "the new accumulator is constructed for "+describe(c.Call.Args[pi])+", not p.Header.PID")
+					}
 				}
+			} else if al, isAl := l.(*ssa.Alloc); isAl && ssau.IsNamed(al.Type().Underlying().(*types.Pointer).Elem(), load.RootPath, "packetAccumulator") {
+				// &packetAccumulator{pid: …} written out in addUnlocked
+				fresh, freshAt = al, al.Block()
+				npid := 0
+				for _, r := range *al.Referrers() {
+					fa, ok := r.(*ssa.FieldAddr)
+					if !ok {
+						continue
+					}
+					if n, _ := ssau.FieldName(fa); n != "pid" {
+						continue
+					}
+					for _, rr := range *fa.Referrers() {
+						if st, ok := rr.(*ssa.Store); ok && st.Addr == ssa.Value(fa) {
+							npid++
+							if !isPID(st.Val) {
+								bad = append(bad, "the new accumulator's pid is "+describe(st.Val)+", not p.Header.PID")
+							}
+						}
+					}
+				}
+				if npid != 1 {
+					bad = append(bad, fmt.Sprintf("the pid field of the accumulator literal is stored %d times (expected once)", npid))
+				}
+			}
+			if fresh != nil {
+				nnew++
+				c := fresh
 				// stored under the same key on every path to add
 				var upd *ssa.MapUpdate
 				for _, r := range *c.Referrers() {
-					if mu, ok := r.(*ssa.MapUpdate); ok && mu.Value == ssa.Value(c) {
+					if mu, ok := r.(*ssa.MapUpdate); ok && mu.Value == c {
 						upd = mu
 					}
 				}
@@ -127,8 +191,8 @@ func (a *A) keyedByPID() {
 					bad = append(bad, "the new accumulator is stored in "+upd.Map.String()+", not in b.b")
 				case !isPID(upd.Key):
 					bad = append(bad, "the new accumulator is stored under "+describe(upd.Key)+", not uint32(p.Header.PID)")
-				case upd.Block() != c.Block():
-					if esc := escapesWithout(c.Block(), map[*ssa.BasicBlock]bool{upd.Block(): true}, func(b *ssa.BasicBlock) bool { return b == s.Block() }); esc != nil {
+				case upd.Block() != freshAt:
+					if esc := escapesWithout(freshAt, map[*ssa.BasicBlock]bool{upd.Block(): true}, func(b *ssa.BasicBlock) bool { return b == s.Block() }); esc != nil {
 						bad = append(bad, "a path from newPacketAccumulator to acc.add bypasses the map update")
 					}
 				}
@@ -143,19 +207,20 @@ func (a *A) keyedByPID() {
 	a.R.Check(len(bad) == 0, rule, key, a.ipos(sites[0]),
 		fmt.Sprintf("the accumulator handed the packet is b.b[uint32(p.Header.PID)] (%d lookup) or a newPacketAccumulator(p.Header.PID, …) stored under the same key (%d constructor): lookup key, update key and constructor argument are loads of the same path p.Header.PID, p is not written", nlook, nnew),
 		strings.Join(bad, "; "))
-	// the constructor keeps its pid
-	const k2 = "newPacketAccumulator/pid-field-is-parameter"
-	ok := false
-	for _, b := range newAcc.Blocks {
-		for _, in := range b.Instrs {
-			if st, isSt := in.(*ssa.Store); isSt {
-				if _, isPid := a.fieldAddrOf(st.Addr, "packetAccumulator", "pid"); isPid && len(newAcc.Params) > 0 && st.Val == ssa.Value(newAcc.Params[0]) {
-					ok = true
-				}
-			}
+	// the constructor keeps its pid (by construction of pidParam: the only stores to the pid field take that one parameter)
+	for g := range ctors {
+		a.R.OK(rule, bare(g)+"/pid-field-is-parameter", a.fpos(g), bare(g)+" stores one parameter, and nothing else, in the pid field of the accumulator it returns; the call passes p.Header.PID for it")
+	}
+	// every other producer of a *packetAccumulator that addUnlocked calls must be such a constructor
+	for _, c := range ssau.Calls(f) {
+		g := c.Common().StaticCallee()
+		if g == nil || g.Pkg != a.P.SSAPkg || g.Signature.Results().Len() != 1 || ctors[g] {
+			continue
+		}
+		if pt, ok := g.Signature.Results().At(0).Type().Underlying().(*types.Pointer); ok && ssau.IsNamed(pt.Elem(), load.RootPath, "packetAccumulator") {
+			a.R.Bad(rule, bare(g)+"/pid-field-is-parameter", a.ipos(c), bare(g)+" returns an accumulator but does not store exactly one of its parameters in the pid field")
 		}
 	}
-	a.R.Check(ok, rule, k2, a.fpos(newAcc), "newPacketAccumulator stores its first parameter in the pid field", "newPacketAccumulator does not store its pid parameter in the pid field")
 }
 
 func describe(v ssa.Value) string {
